@@ -123,7 +123,14 @@ func (r *Run) checkCapacity() {
 		return
 	}
 	reloaded := r.cur.reloadedSync || r.cur.reloadEnq
-	if !reloaded || r.reloadPendingBefore {
+	if r.cur.failed || r.cur.faults > 0 {
+		return
+	}
+	owed := r.reloadOwed
+	if reloaded {
+		r.reloadOwed = false
+	}
+	if !reloaded || r.reloadPendingBefore || owed {
 		// with a reload already pending the running HAProxy lags the files; commands for the
 		// slots of the newer files fail and a reload is the documented answer
 		return
@@ -185,6 +192,24 @@ func init() {
 			keys := []string{"affinity", "session-cookie-name", "session-cookie-strategy", "balance-algorithm", "maxconn-server", "timeout-server", "initial-weight"}
 			rc.World, rc.Ops = GenerateRun(seed, GenOptions{Sparse: r.IntN(3) == 0, IngressKeys: keys, ServiceKeys: []string{"maxconn-server"},
 				GlobalKeys: []string{"timeout-client"}, InitialGlobal: capGlobals(r), MinOps: mn, MaxOps: mx, QuiesceEvery: 4, KeysPerRun: 4, W: w, NoForeignClass: true})
+			return rc
+		}})
+	// the same with reloads that fail: the retried reload must restore the free slots as any reload does
+	register(&Profile{Name: "capacity-reload-faults", Prop: "C11", Weight: 1,
+		Oracles: OracleSet{Property: "C11", Capacity: true},
+		Build: func(seed uint64, tier string) *RunConfig {
+			r := cfgRng(seed)
+			mn, mx := tierOps(tier, 10, 30)
+			ctl := sampleCtl(r)
+			ctl.ReloadIntervalMs = 0
+			ctl.ReloadRetryMs = pickInt(r, 2000, 5000)
+			rc := &RunConfig{Property: "C11", Profile: "capacity-reload-faults", Seed: seed, Ctl: ctl, MapOrder: r.IntN(2) == 0, Lagfree: true}
+			rc.Faults = map[string]int{"haproxy.reload_fail": pickInt(r, 100, 250, 500)}
+			rc.MaxFaults = 1 + r.IntN(3)
+			w := map[string]int{"ep_scale": 24, "ep_ready": 6, "ep_replace": 8, "renotify": 2, "advance": 6}
+			keys := []string{"balance-algorithm", "maxconn-server", "timeout-server", "initial-weight"}
+			rc.World, rc.Ops = GenerateRun(seed, GenOptions{Sparse: r.IntN(3) == 0, IngressKeys: keys, ServiceKeys: []string{"maxconn-server"},
+				GlobalKeys: []string{"timeout-client"}, InitialGlobal: capGlobals(r), MinOps: mn, MaxOps: mx, QuiesceEvery: 3, KeysPerRun: 3, W: w, NoForeignClass: true})
 			return rc
 		}})
 	register(&Profile{Name: "quiet-renotify", Prop: "C11", Weight: 1,
